@@ -16,11 +16,12 @@ RULE = ("every clean (schema, document) pair x every applicable single invalidat
         "leaf, E3 no sub-selection on a composite field, E4 undefined spread / removed definition, E5 unknown type condition, "
         "E6 type condition that can never apply (empty intersection of possible types, or a non-composite type), E7 `__typename` "
         "dropped from an abstract selection (and not reachable through same-type spreads), E8 second subscription root field, "
-        "E9 anonymous operation, E10 operation kind without root type. Each edit is validated by the model first. The unedited "
+        "E9 anonymous operation, E10 operation kind without root type, E11 the query file of one schema given in the same process to a "
+        "schema that has none of its fields (accepted / refused / accepted again, and the other order). Each edit is validated by the model first. The unedited "
         "document must be accepted (control). Non-trivial = edit at depth >= 2, inside a fragment or inside an inline fragment; "
         "distinct by edited document text")
 
-FLOOR = {"E1": 300, "E2": 100, "E3": 50, "E4": 50, "E5": 30, "E6": 100, "E7": 30, "E8": 2, "E9": 30, "E10": 5, "controls-accepted": 30}
+FLOOR = {"E1": 300, "E2": 100, "E3": 50, "E4": 50, "E5": 30, "E6": 100, "E7": 30, "E8": 2, "E9": 30, "E10": 5, "E11": 8, "controls-accepted": 30}
 
 
 def main(run):
@@ -87,9 +88,41 @@ def main(run):
             run.nontrivial(req["query_text"], m["schema_path"])
         if resp["outcome"] != "ok" and run.counters.get(m["rule"], 0) % 400 == 1:
             run.sample({"rule": m["rule"], "edit": m["label"], "document": req["query_text"][:500], "outcome": resp["outcome"], "message": (resp.get("message") or "")[:200]}, limit=8)
+    # E11: a query FILE that one schema can answer, given in the same process to a schema that cannot (two APIs in one crate,
+    # one query directory): accepted, refused, accepted again - and the other order for the next file
+    from ..factory import run_gendrv
+    zsp = os.path.join(work, "z_other_schema.graphql")
+    open(zsp, "w").write("type Query { zz_only_in_this_schema: Int }\n")
+    seq = []
+    ctrl_ids = [rid for rid in meta if meta[rid]["rule"] == "control"][: run.size(12, 120)]
+    req_by_id = {r["id"]: r for r in reqs}
+    for n, rid in enumerate(ctrl_ids):
+        text = req_by_id[rid]["query_text"]
+        if "{" not in text or text.count("__typename") and len(text) < 40:
+            continue
+        qp = os.path.join(work, "e11_%d.graphql" % n)
+        open(qp, "w").write(text)
+        own = meta[rid]["schema_path"]
+        order = [own, zsp, own] if n % 2 == 0 else [zsp, own, zsp]
+        for k, spath in enumerate(order):
+            seq.append(({"id": "e11_%d_%d" % (n, k), "schema_path": spath, "query_path": qp, "options": {"mode": "cli"}, "want": []}, spath == zsp, text, own))
+    for (req, must_fail, text, own), resp in zip(seq, run_gendrv([x[0] for x in seq])):
+        run.evaluated()
+        case = {"id": req["id"], "corpus": "clean", "rule": "E11", "label": "query file of another schema, same process", "doc_text": text,
+                "schema_text": open(req["schema_path"]).read(), "schema_ext": os.path.splitext(req["schema_path"])[1][1:], "own_schema_text": open(own).read()}
+        if must_fail:
+            run.count("E11")
+            if resp["outcome"] == "ok":
+                run.violation(case, "accepted E11: a document of another schema, given as the same query file to a schema without any of its fields (calls before it in this process: %s)" % req["id"])
+            else:
+                run.held()
+                run.nontrivial("E11", text)
+        elif resp["outcome"] != "ok":
+            run.inconclusive_case(req["id"], "E11 control rejected: %s" % (resp.get("message") or "")[:160])
+        else:
+            run.held()
     # committed witnesses of findings (open: expected to be accepted; fixed: must be rejected now)
     from ..core import load_known
-    from ..factory import run_gendrv
     for k in load_known():
         w = k.get("witness") or {}
         if k["property"] != "C06" or w.get("engine") != "A" or "document" not in w:
